@@ -38,6 +38,10 @@ pub fn eval_stream(ctx: &mut Ctx, cw: &[u8], tag: &'static str) {
 }
 
 pub fn eval_word(ctx: &mut Ctx, r: &Row, word: &[u8], tag: &'static str) {
+    if word.len() != r.total() {
+        // the statement covers vectors of the symbol's length only
+        return ctx.harness_error(format!("decode_error workload {} built a word of {} codewords for {}", tag, word.len(), r.name));
+    }
     ctx.eval();
     crate::ctx::trace_case(|| Case::new("de").with("size", r.name).bytes("word", word).flat());
     let size = r.size;
